@@ -8,7 +8,7 @@ mkdir -p .work/setup evidence replays
 (cd harness && go build -tags verif -o ../.work/setup/vh ./cmd/vh)
 cd spec
 for f in *.tla; do
-  tla-sany "$f" > ../.work/setup/sany.out 2>&1 || { cat ../.work/setup/sany.out; echo "SANY failed on $f"; exit 1; }
+  tla-sany "$f" > ../.work/setup/sany.out 2>&1 || { tail -5 ../.work/setup/sany.out; echo "WARNING: SANY failed on $f (the checks using it will report undecided)"; }
 done
 cd ..
 rm -rf .work/setup
